@@ -227,6 +227,20 @@ def check_gctm(pc, rng):
         if e_out > 5e-2 and e_out > e_start:
             bad.append(("GCTM:moments-worse-than-starting-guess", dict(N=N, L=L, rel_out=float(e_out), rel_start=float(e_start), h=hh.tolist(), cn2=cc.tolist())))
             break
+    # the optional scalings are numerical conditioning only: the profile in kilometres with h_scaling=10, a shallow profile with
+    # h_scaling=5000, strengths re-scaled with cn2_scaling - the returned layers must describe the same (re-scaled) profile
+    h = np.linspace(0.0, 15000.0, 14)
+    p = (1.0 + np.arange(14) % 4) * 1e-15
+    for label, (hh_in, pp_in, kw, hfac, pfac) in (("heights-in-km", (h / 1e3, p, dict(h_scaling=10.0), 1e3, 1.0)),
+                                                  ("shallow-profile", (h / 3.0, p, dict(h_scaling=5000.0 / 1.5), 3.0, 1.0)),
+                                                  ("strong-profile", (h, p * 50, dict(cn2_scaling=5e-12), 1.0, 1.0 / 50))):
+        for L in (2, 3):
+            out = pc.GCTM(hh_in.copy(), pp_in.copy(), L, **kw)
+            hh, cc = np.asarray(out[0], float) * hfac, np.asarray(out[1], float) * pfac
+            n += 1
+            if hh.shape != (L,) or np.any(hh < -1e-6) or np.any(hh > h.max() * 1.2) or momerr(hh, cc, L) > 5e-2:
+                bad.append(("GCTM:optional-scaling-changes-the-profile:" + label, dict(L=L, h=hh.tolist(), cn2=cc.tolist(), rel=float(momerr(hh, cc, L)))))
+                break
     check_gctm.worst = worst
     return bad, n
 
